@@ -5356,11 +5356,27 @@ func (a *taggedTemplateArray) equal(other objectImpl) bool {
 	return false
 }
 
+// cloneTmplValues copies the property cells of a template literal: the originals belong to the Program,
+// which may be running in other Runtimes at the same time, and [[DefineOwnProperty]] writes to the cell
+// even when the descriptor changes nothing.
+func cloneTmplValues(values []Value) []Value {
+	ret := make([]Value, len(values))
+	for i, v := range values {
+		if p, ok := v.(*valueProperty); ok {
+			cp := *p
+			ret[i] = &cp
+		} else {
+			ret[i] = v
+		}
+	}
+	return ret
+}
+
 func (c *getTaggedTmplObject) exec(vm *vm) {
 	cooked := vm.r.newArrayObject()
-	setArrayValues(cooked, c.cooked)
+	setArrayValues(cooked, cloneTmplValues(c.cooked))
 	raw := vm.r.newArrayObject()
-	setArrayValues(raw, c.raw)
+	setArrayValues(raw, cloneTmplValues(c.raw))
 
 	cooked.propValueCount = len(c.cooked)
 	cooked.lengthProp.writable = false
